@@ -1,14 +1,18 @@
 SPEC_PART = dict(
     props_file="C17_theta",
     legs=[dict(family="theta", focus="extremes", oracles=["kmv_ok", "no_panic", "roundtrip_ok"], profiles=["debug", "release"],
-               mask=[1, 2, 3, 4, 5, 6, 7, 9, 10, 11, 14, 16], n_quick=80, n_thorough=800, panic_is_violation=True)],
+               mask=[1, 2, 3, 4, 5, 6, 7, 9, 10, 11, 13, 14, 16, 17, 18], n_quick=80, n_thorough=800, panic_is_violation=True)],
     trusted=["the binomial confidence bounds (ln/sqrt loops of common/binomial_bounds.rs) are not modelled: the theorem gives their "
              "precondition (0 < theta <= 2^63-1), the harness calls them on every dumped state in both profiles"],
-    assumptions=["theta: lg_k in 5..=26, sampling probability in (0, 1] (builder asserts), any u64 offered as hash"],
+    assumptions=["theta: lg_k in 5..=26, sampling probability in (0, 1], a seed whose 16-bit seed hash is not zero (all three "
+                 "asserted by the builder's setters and documented; the seed assertion is /repo fix 1641259 - before it the "
+                 "unusable seed surfaced as a panic inside compact()), any u64 offered as hash"],
     covers="theta: every history of update / trim / reset / compact on every valid configuration runs without reaching a modelled "
            "panic site (find_in_entries always succeeds, select_nth_unstable's index is in range, the assert_eq!s hold); compact() + "
            "serialize()/serialize_compressed() never panic; theta stays in [1, 2^63-1]. Found and repaired: sampling_probability "
-           "below 2^-63 started with theta = 0 (bounds panicked, estimate NaN). Tie: histories at lg_k 5/6/12, p in {1, 0.5, "
+           "below 2^-63 started with theta = 0 (bounds panicked, estimate NaN); a seed with seed hash 0 (e.g. 50541) built and "
+           "updated fine, then compact() panicked, and deserialize_with_seed panicked with it. Tie: histories at lg_k 5/6/12, p in {1, 0.5, "
            "2^-62, 2^-63, 2^-64, 1e-20, 1e-38, 2^-149, 1-2^-24}, all resize factors, with trim/reset/compact, both serializers and "
-           "the confidence bounds called on every dumped state, debug (overflow checks, debug assertions) and release; any panic is "
+           "the confidence bounds called on every dumped state; the builder tried with usable and zero-hash seeds (op 18: refuses "
+           "exactly the latter) and deserialize_with_seed with zero-hash, wrong and right reader seeds (op 17), debug (overflow checks, debug assertions) and release; any panic is "
            "a violation and the model must reproduce every observation in both profiles")
